@@ -143,6 +143,17 @@ def run_mapping(case, ctx):
             ctx.check('mapping_model', st == 'ok' and type(res) is list and len(res) == len(sel) and all(a is base[k] or same(a, base[k]) for a, k in zip(res, sel)), lambda: 'd[%r] = %r' % (tuple(sel), res))
         else:
             ctx.check('mapping_model', st == 'exc' and isinstance(res, KeyError), lambda: 'd[%r] with an absent key -> %s %r' % (tuple(sel), st, res))
+    elif op == 'add_nested':
+        from .C15 import m_merge, plainify, teq, idsnap, idsnap_same
+        o = codec.dec(case['o'])
+        s_d, s_o = idsnap(d), idsnap(o)
+        st, res = ctx.call(lambda: d + o)
+        exp = m_merge(plainify(d), plainify(o), [])
+        ctx.check('mapping_model', st == 'ok' and type(res) is cls and teq(res, exp), lambda: '%s(%r) + %r = %s %r, deep merge %r' % (case['cls'], base, case['o'], st, res, exp))
+        ctx.check('mapping_unchanged', idsnap_same(idsnap(d), s_d) and idsnap_same(idsnap(o), s_o), lambda: 'd + other changed an operand below the first level: d=%r other=%r' % (plainify(d), plainify(o)))
+        ctx.cls('map:%s:add_nested' % case['cls'])
+        ctx.mark_nontrivial(case)
+        return
     elif op in ('add', 'or'):
         o = codec.dec(case['o'])
         oo = o if case.get('oplain') else classes()[case.get('ocls', 'dictattr')](o)
@@ -266,6 +277,9 @@ VALS = [0, 1, 'v', None, [1, 2], {'$t': [1]}, 2.5, 'w']
 
 
 def gen_map(rng):
+    if rng.random() < 0.08:
+        from .C15 import gen_tree
+        return {'kind': 'map', 'cls': rng.choice(['Dict', 'MyDict']), 'd': gen_tree(rng, rng.randint(2, 4), 'dict'), 'op': 'add_nested', 'o': gen_tree(rng, rng.randint(1, 4), 'dict')}
     ks = rng.sample(KEYS, rng.randint(0, 5))
     d = {k: rng.choice(VALS) for k in ks}
     cls = rng.choice(['dictattr', 'Dict', 'MyAttr', 'MyDict'])
@@ -323,6 +337,8 @@ def gen_map(rng):
 def gen_graph(rng):
     nb = rng.randint(0, 3)
     base = {('b%d' % i): i + 1 for i in range(nb)}
+    if rng.random() < 0.3:
+        base['key'] = 'own-value-of-key'     # a mapping may well have an entry called 'key': arguments are taken by name from the mapping
     nd = rng.randint(1, 6) if rng.random() < 0.8 else rng.randint(5, 6)
     dkeys = ['k%d' % i for i in range(nd)]
     # some derived keys redefine existing base keys
